@@ -62,6 +62,17 @@ CHECKS = {
         "Schedules are owned at producer-step/consumer-step/close granularity; inside a queue hand-off CPython schedules. Watchdog 5 s, confirmed at 20 s. "
         "ASGI return bound includes the server's own send time (3 x send delay).",
     ),
+    "C07": (
+        "exploration",
+        "exhaustive path enumeration over a hostile segment alphabet + systematic variants of every file/decoy + Hypothesis layouts, against a lexical reference resolver; sys.addaudithook records every open()",
+        "Two fixed layouts with parent/sibling decoys (secret files, static.html, static2/, staticfile, other.html) and generated layouts are served by "
+        "Files and Pages on both interfaces with the directory given as absolute, relative (cwd switched), './static/' and package-relative "
+        "path, bare and mounted under a prefix. All paths of <= 2 segments (quick; 3 thorough) over 27 hostile segments with/without "
+        "trailing slash are enumerated; every served body must be the content of a lexically resolved candidate inside the directory, no "
+        "file of the surrounding tree may be opened (audit hook), escapes are 404, every regular file is served at its own URL, Pages "
+        "redirects resolve like a client does and are followed to the index page.",
+        "No symlinks, POSIX paths. Non-canonical URLs may be served (safety rule) or be not-found.",
+    ),
     "C08": (
         "exploration",
         "exhaustive enumeration of a small text domain per convertor type + Hypothesis route tables/paths against a reference matcher with explicit per-type languages",
